@@ -367,7 +367,13 @@ pub fn run_case(kind: &str, case: &Value) -> Value {
     let mut out = vec![];
     let first = w.snapshot();
     for st in case["steps"].as_array().cloned().unwrap_or_default() {
-        let res = w.step(&st);
+        let res = match std::panic::catch_unwind(std::panic::AssertUnwindSafe(|| w.step(&st))) {
+            Ok(r) => r,
+            Err(e) => {
+                let msg = if let Some(s) = e.downcast_ref::<String>() { s.clone() } else if let Some(s) = e.downcast_ref::<&str>() { s.to_string() } else { "panic".to_string() };
+                Err(format!("panic: {}", msg))
+            }
+        };
         let snap = w.snapshot();
         match res {
             Ok(v) => out.push(json!({"ok": true, "res": v, "snap": snap})),
